@@ -29,6 +29,7 @@ def kind? : String → Option Kind
   | "dbm" => some .directBalance
   | "mal" => some .maliciousDelayed
   | "dd" => some .doubleDebit
+  | "fr" => some .feeOnReceive
   | _ => none
 
 def ownerStr : Owner → String
@@ -100,7 +101,7 @@ def step (st : St) (line : String) : St × String :=
     | some k, some init =>
       let w := { st.w with code := fun a => if a = c then true else st.w.code a }
       let w := w.setTok c { kind := k, bal := fun a => if a = deployer then init else 0, supply := init,
-                            admin := fun a => a == deployer }
+                            admin := fun a => a == deployer || k == .doubleDebit || k == .feeOnReceive }
       ({ st with w := w, contracts := addU st.contracts c }, "ok")
     | _, _ => bad
   | ["regerc20", c, d] =>
